@@ -296,6 +296,98 @@ impl<T: SerChunky> Check for SerLasso<T> {
         Ok(self.run_word(&w).1.into_iter().map(|(v, _)| v).collect())
     }
 }
+/// States with very large counts, reachable by merges: collect(word) merged with a copy of
+/// itself k times (len = |word|·2^k, k up to 61), one more observation added, then a
+/// checkpoint; the restored copy and the original must agree bit-for-bit (len() included),
+/// also after one further add on both.
+pub struct SerDoubling<T: SerChunky> {
+    pub alpha_name: String,
+    pub alpha: Vec<T::Item>,
+    pub max_k: u32,
+}
+impl<T: SerChunky> SerDoubling<T> {
+    fn run_word(&self, w: &[T::Item]) -> (u64, Vec<(Violation, usize)>) {
+        let mut e = T::collect(w);
+        let mut steps = 0u64;
+        for k in 1..=self.max_k {
+            let c = e.clone();
+            e.merge_(&c);
+            steps += 1;
+            let mut plain = e.clone();
+            plain.add_item(w[0]);
+            if non_finite_fields(&plain.dbg()) {
+                continue;
+            }
+            let js = match plain.to_json() {
+                Ok(j) => j,
+                Err(m) => return (steps, vec![(Violation { sig: format!("{}.serialize:error", T::NAME), detail: m }, k as usize)]),
+            };
+            let mut r = match guarded(|| T::from_json(&js)) {
+                Ok(Ok(r)) => r,
+                Ok(Err(m)) | Err(m) => return (steps, vec![(Violation { sig: format!("{}.deserialize:error", T::NAME), detail: format!("after {k} doublings, {js}: {m}") }, k as usize)]),
+            };
+            let mut differs = r.dbg() != plain.dbg() || !r.observe_().bits_eq(&plain.observe_());
+            if !differs {
+                r.add_item(w[w.len() - 1]);
+                plain.add_item(w[w.len() - 1]);
+                differs = r.dbg() != plain.dbg() || !r.observe_().bits_eq(&plain.observe_());
+            }
+            if differs {
+                return (
+                    steps,
+                    vec![(
+                        Violation {
+                            sig: format!("{}.roundtrip:differs:large-count", T::NAME),
+                            detail: format!("{}: collect({:?}) doubled {k} times by merging with itself, then one add: restored from {js} it is {} but the original is {}", T::NAME, w, r.dbg(), plain.dbg()),
+                        },
+                        k as usize,
+                    )],
+                );
+            }
+        }
+        (steps, vec![])
+    }
+}
+impl<T: SerChunky> Check for SerDoubling<T> {
+    fn name(&self) -> String {
+        format!("C18/serde-large-counts/{}/{}/2^{}", T::NAME, self.alpha_name, self.max_k)
+    }
+    fn run(&self) -> crate::explore::Stats {
+        let t0 = std::time::Instant::now();
+        let mut words: Vec<Vec<T::Item>> = Vec::new();
+        for a in &self.alpha {
+            words.push(vec![*a]);
+            for b in &self.alpha {
+                words.push(vec![*a, *b]);
+            }
+        }
+        let mut st = crate::explore::Stats { spec: self.name(), depth_requested: self.max_k as usize, depth_completed: self.max_k as usize, ..Default::default() };
+        let mut found: std::collections::BTreeMap<String, crate::explore::Found> = Default::default();
+        for w in &words {
+            let (steps, vs) = self.run_word(w);
+            st.states += steps;
+            st.transitions += 4 * steps;
+            st.maximal += 1;
+            for (v, k) in vs {
+                let e = found.entry(v.sig.clone()).or_insert(crate::explore::Found { sig: v.sig, detail: v.detail, path: vec![json!({"word": w.iter().map(|i| T::item_json(i)).collect::<Vec<_>>()}), json!({"upto": k})], count: 0 });
+                e.count += 1;
+            }
+        }
+        st.nontrivial_states = st.states;
+        st.outcomes = st.maximal;
+        st.samples.push(json!({"spec": self.name(), "history": [{"word": words[words.len() / 2].iter().map(|i| T::item_json(i)).collect::<Vec<_>>()}, {"doubled_by_self_merge_up_to": self.max_k}, "after each doubling: add, checkpoint, add"]}));
+        st.found = found.into_values().collect();
+        st.wall_s = t0.elapsed().as_secs_f64();
+        st
+    }
+    fn replay(&self, path: &[Value]) -> Result<Vec<Violation>, String> {
+        let w: Vec<T::Item> = path.first().and_then(|v| v.get("word")).and_then(|w| w.as_array()).ok_or("no word")?.iter().map(|i| T::item_parse(i)).collect::<Option<Vec<_>>>().ok_or("bad word")?;
+        Ok(self.run_word(&w).1.into_iter().map(|(v, _)| v).collect())
+    }
+}
+fn serd<T: SerChunky>(name: &str, alpha: Vec<T::Item>) -> Box<dyn Check> {
+    Box::new(SerDoubling::<T> { alpha_name: name.into(), alpha, max_k: 61 })
+}
 /// does the derived Debug rendering of an estimator show a non-finite field?
 fn non_finite_fields(dbg: &str) -> bool {
     // the tokens `inf` and `NaN` as f64's Debug prints them (not as part of an identifier)
@@ -364,6 +456,17 @@ pub fn plan(tier: Tier) -> Plan {
     checks.push(serl::<WeightedMeanWithError>("w3", vec![(-1., 0.), (0.1, 0.5), (3., 1e6)], 3, n));
     checks.push(serl::<Covariance>("corr3", vec![(1., 5.), (2., 4.1), (-3., 0.1)], 3, n));
     checks.push(serl::<HistChunk<average::Histogram10>>("samples", vec![0.5, 4.5, 9.5], 2, n));
+    // counts beyond 2^53 (reachable by merges only)
+    for a in ["tri", "dec"] {
+        let al = sub_alphabet(a, 2);
+        checks.push(serd::<U<Mean>>(a, al.clone()));
+        checks.push(serd::<U<Variance>>(a, al.clone()));
+        checks.push(serd::<U<Skewness>>(a, al.clone()));
+        checks.push(serd::<U<Kurtosis>>(a, al.clone()));
+        checks.push(serd::<U<Moments4>>(a, al.clone()));
+    }
+    checks.push(serd::<WeightedMeanWithError>("wdec", vec![(1., 0.1), (2., 0.2)]));
+    checks.push(serd::<Covariance>("corr3", vec![(1., 5.), (2., 4.1)]));
     // weights that are not dyadic (their running sums round)
     let wdec = vec![(1., 0.1), (2., 0.2), (3., 0.3)];
     checks.push(ser::<WeightedMean>("wdec", wdec.clone(), d));
@@ -386,7 +489,7 @@ pub fn plan(tier: Tier) -> Plan {
     checks.push(ser::<HistChunkRep<H4>>("repeated-edge", vec![0.5, 1.0, 3.5], d));
     checks.push(ser::<HistChunkRep<average::Histogram10>>("repeated-edge", vec![0.5, 1.0, 9.5], d));
     Plan {
-        rule: "long periodic streams (every word of length <= 3 repeated to n = 200 / 5000) with a checkpoint after EVERY observation, the restored copy carried forward next to the uninterrupted one (Quantile at eight values of p incl. non-dyadic 0.2, 1/3, 0.9, 0.99); AND for every serialisable estimator type: BFS over add(x) (3-value alphabets), merge(collect(w)) for every word w of length <= 2, and checkpoint = serde_json (float_roundtrip) to_string -> from_str replacing the object; at EVERY reachable state (position 0, inside Quantile's <5 phase, between merges) the checkpoint transition is checked differentially: serialising leaves the Debug string unchanged, the restored object's Debug string and every accessor are bit-identical, and every continuation of up to two further operations stays bit-identical on both copies; states whose JSON contains a non-finite field (fresh Min/Max) are outside the statement and counted as trivial".into(),
+        rule: "large counts: collect(w) for every word of length <= 2 merged with itself up to 61 times (len up to 2^62), after each doubling one add, a checkpoint, one more add, compared bit-for-bit; long periodic streams (every word of length <= 3 repeated to n = 200 / 5000) with a checkpoint after EVERY observation, the restored copy carried forward next to the uninterrupted one (Quantile at eight values of p incl. non-dyadic 0.2, 1/3, 0.9, 0.99); AND for every serialisable estimator type: BFS over add(x) (3-value alphabets), merge(collect(w)) for every word w of length <= 2, and checkpoint = serde_json (float_roundtrip) to_string -> from_str replacing the object; at EVERY reachable state (position 0, inside Quantile's <5 phase, between merges) the checkpoint transition is checked differentially: serialising leaves the Debug string unchanged, the restored object's Debug string and every accessor are bit-identical, and every continuation of up to two further operations stays bit-identical on both copies; states whose JSON contains a non-finite field (fresh Min/Max) are outside the statement and counted as trivial".into(),
         assumptions: {
             let mut a = common_assumptions();
             a.push("serde_json with float_roundtrip is a lossless format for finite f64 and u64/i64".into());
